@@ -123,12 +123,17 @@ pub fn drive(args: &[String]) -> i32 {
     let mut f = std::io::BufWriter::new(std::fs::File::create(&outp).unwrap());
     let (mut jtx, mut drx) = spawn_worker();
     let mut nev = 0u64; let mut ncalls = 0u64; let mut ntimeouts = 0u64;
+    let mut aborted = false;
     for (ei, e) in reg.iter().enumerate() {
         if let Some(o) = &only { if !e.label().contains(o.as_str()) { continue; } }
+        // every timed-out call leaves a spinning thread behind: once hangs are established, stop driving
+        if ntimeouts >= 12 { aborted = true; break; }
         let base = base_event(e, ei);
         // adversarial schedules
+        let mut entry_timeouts = 0u64;
         for s in 0..nseeds {
             for pos in 0..positions {
+                if entry_timeouts >= 3 { continue; }       // a hanging entry has been established: do not spend 2 s per further call
                 let jobs: Vec<Job> = lat.iter().map(|&w| Job { entry: ei, prefix: vec![], seed: seed.wrapping_add(s * 7919 + ei as u64), at: pos, word: w, mode: 0 }).collect();
                 let dones = run_batch(jobs, limit_ms, &mut jtx, &mut drx);
                 for (&w, d) in lat.iter().zip(dones.into_iter()) {
@@ -146,7 +151,7 @@ pub fn drive(args: &[String]) -> i32 {
                             ev["wpos"] = json!(if e.family.starts_with("Weighted") { weight_positive(e, o.bits[0]) } else { true });
                             ev["show"] = json!(o.bits.iter().map(|&b| match o.kind { "f32" => format!("{:e}", f32::from_bits(b as u32)), "f64" => format!("{:e}", f64::from_bits(b)), _ => format!("{}", b) }).collect::<Vec<_>>());
                         }
-                        Err(p) => { if p == "Timeout" { ntimeouts += 1; }
+                        Err(p) => { if p == "Timeout" { ntimeouts += 1; entry_timeouts += 1; }
                             ev["res"] = json!(if p == "Timeout" { p.clone() } else { format!("Panic: {}", p) });
                             ev["out"] = json!([]); ev["ocls"] = json!([]); ev["integral"] = json!(true); ev["wpos"] = json!(true); ev["show"] = json!([]); }
                     }
@@ -156,6 +161,7 @@ pub fn drive(args: &[String]) -> i32 {
         }
         // random-stream budget block
         let mut sum_words = 0u64; let mut max_words = 0u64; let mut max_us = 0u64; let mut bad = 0u64; let mut outlen = 1usize;
+        let block_calls = if entry_timeouts >= 3 { 3 } else { block_calls };
         let jobs: Vec<Job> = (0..block_calls).map(|c| Job { entry: ei, prefix: vec![], seed: seed ^ (0xb10c + c * 104729 + ei as u64 * 31), at: 0, word: 0, mode: 1 }).collect();
         for d in run_batch(jobs, limit_ms, &mut jtx, &mut drx) {
             ncalls += 1;
@@ -170,7 +176,7 @@ pub fn drive(args: &[String]) -> i32 {
     drop(jtx);
     // 2^24 sweeps of the first word for f32 entries (in parallel, aggregated per entry)
     let mut sweeps = 0u64;
-    if sweep_entries > 0 {
+    if sweep_entries > 0 && !aborted {
         let idx: Vec<usize> = reg.iter().enumerate().filter(|(_, e)| e.ft == "f32" && only.as_ref().map(|o| e.label().contains(o.as_str())).unwrap_or(true)
             && ["Cauchy", "Pareto", "Weibull", "Gumbel", "Frechet", "Triangular", "Exp", "Exp1", "Normal", "StandardNormal", "LogNormal", "Zipf", "Zeta", "WeightedTreeIndex", "WeightedAliasIndex", "Beta", "Gamma", "Pert", "UnitDisc", "SkewNormal", "InverseGaussian"].contains(&e.family)).map(|(i, _)| i).collect();
         let idx: Vec<usize> = idx.into_iter().filter(|i| sweep_entries >= 2 || i % 3 == (seed % 3) as usize).collect();
@@ -227,6 +233,6 @@ pub fn drive(args: &[String]) -> i32 {
         for h in handles { for l in h.join().unwrap() { writeln!(f, "{}", l).unwrap(); nev += 1; sweeps += 1; } }
     }
     f.flush().unwrap();
-    println!("{}", json!({"tool": "sup-drive", "events": nev, "calls": ncalls, "timeouts": ntimeouts, "entries": reg.len(), "lattice_words": lat.len(), "sweeps_2p24": sweeps}));
+    println!("{}", json!({"tool": "sup-drive", "events": nev, "calls": ncalls, "timeouts": ntimeouts, "entries": reg.len(), "lattice_words": lat.len(), "sweeps_2p24": sweeps, "aborted_after_hangs": aborted}));
     std::process::exit(0);
 }
